@@ -208,6 +208,22 @@ class _ReCanon(ast.NodeTransformer):
                 else:
                     new.keywords.append(ast.keyword(arg="flags", value=flags))
             return ast.fix_missing_locations(ast.copy_location(new, node))
+        # re.m(re.compile(p, f), args) -> re.m(p, args, f): the module functions accept a compiled pattern
+        if isinstance(f, ast.Attribute) and f.attr in RE_METHODS and isinstance(f.value, ast.Name) and f.value.id == "re" and node.args and _is_compile(node.args[0]) and not node.keywords:
+            comp = node.args[0]
+            flags = comp.args[1] if len(comp.args) > 1 else None
+            for k in comp.keywords:
+                if k.arg == "flags":
+                    flags = k.value
+            maxargs = {"match": 2, "search": 2, "fullmatch": 2, "findall": 2, "finditer": 2, "split": 3, "sub": 4, "subn": 4}[f.attr]
+            if len(node.args) <= maxargs and not (flags is not None and len(node.args) != {"match": 2, "search": 2, "fullmatch": 2, "findall": 2, "finditer": 2, "split": 2, "sub": 3, "subn": 3}[f.attr]):
+                new = ast.Call(func=f, args=[comp.args[0]] + list(node.args[1:]), keywords=[])
+                if flags is not None:
+                    if f.attr in ("match", "search", "fullmatch", "findall", "finditer"):
+                        new.args.append(flags)
+                    else:
+                        new.keywords.append(ast.keyword(arg="flags", value=flags))
+                return ast.fix_missing_locations(ast.copy_location(new, node))
         return node
 
 
@@ -497,6 +513,346 @@ class Inliner:
             for q, fn, cls, func in qualnames(t, mn):
                 self.index[q] = (fn, cls, func, mn)
         self.counter = 0
+        self._instances = {}
+        self._cur = None
+        self._objs = {}  # local variable -> qualname of the (new) class it is an instance of, while a function is being dissolved
+
+    def _reindex(self):
+        self.index = {}
+        for mn, t in self.trees.items():
+            for q, fn, cls, func in qualnames(t, mn):
+                self.index[q] = (fn, cls, func, mn)
+
+    # -- N9: objects of classes outside the inventory ---------------------
+    DUNDER_OK = {"__init__", "__call__", "__enter__", "__exit__"}
+
+    def _new_class(self, mn, name):
+        """(ClassDef, {method name: FunctionDef}) for a class of module mn that the inventory does not know and whose objects are
+        nothing but a record of fields with plain methods: no bases, no class attributes, no decorators, no implicit protocol
+        besides construction, calling and the with statement"""
+        tree = self.trees.get(mn)
+        cd = next((s for s in tree.body if isinstance(s, ast.ClassDef) and s.name == name), None) if tree is not None else None
+        if cd is None:
+            return None
+        prefix = mn + "." + name + "."
+        if any(k.startswith(prefix) for k in self.known):
+            return None
+        if cd.keywords or cd.decorator_list or any(not (isinstance(b, ast.Name) and b.id == "object") for b in cd.bases):
+            return None
+        methods = {}
+        for s in cd.body:
+            if isinstance(s, ast.FunctionDef):
+                if s.decorator_list or s.args.vararg or s.args.kwarg or not s.args.args or _has(s, (ast.Yield, ast.YieldFrom, ast.Global, ast.Nonlocal)):
+                    return None
+                if s.name.startswith("__") and s.name.endswith("__") and s.name not in self.DUNDER_OK:
+                    return None
+                methods[s.name] = s
+            elif isinstance(s, ast.Pass) or (isinstance(s, ast.Expr) and isinstance(s.value, ast.Constant)):
+                continue
+            elif isinstance(s, ast.Assign) and len(s.targets) == 1 and isinstance(s.targets[0], ast.Name) and s.targets[0].id == "__slots__":
+                continue
+            else:
+                return None
+        for m in methods.values():
+            sp = m.args.args[0].arg
+            bare = 0
+            for n in ast.walk(m):
+                if isinstance(n, ast.Name) and n.id == sp:
+                    bare += 1
+                if isinstance(n, ast.Attribute) and isinstance(n.value, ast.Name) and n.value.id == sp:
+                    bare -= 1
+                if isinstance(n, ast.Return) and isinstance(n.value, ast.Name) and n.value.id == sp and m.name == "__enter__":
+                    bare -= 1
+            if bare:
+                return None  # the object itself is handed on
+        return cd, methods
+
+    def _desugar_with(self, fn, mn):
+        """with C(args) [as v]: body   (C a new class whose __exit__ ignores the exception and never swallows it)
+           ->  v = C(args); v.__enter__(); try: body  finally: v.__exit__(None, None, None)"""
+        changed = False
+        for lst in list(_stmt_lists(fn)):
+            i = 0
+            while i < len(lst):
+                s = lst[i]
+                i += 1
+                if not isinstance(s, ast.With):
+                    continue
+                if len(s.items) > 1 and any(isinstance(it.context_expr, ast.Call) and isinstance(it.context_expr.func, ast.Name) and self._new_class(mn, it.context_expr.func.id) for it in s.items):
+                    inner = ast.With(items=s.items[1:], body=s.body)
+                    s.items = s.items[:1]
+                    s.body = [ast.copy_location(inner, s)]
+                it = s.items[0]
+                ce = it.context_expr
+                if not (isinstance(ce, ast.Call) and isinstance(ce.func, ast.Name)):
+                    continue
+                nc = self._new_class(mn, ce.func.id)
+                if nc is None:
+                    continue
+                cd, methods = nc
+                en, ex = methods.get("__enter__"), methods.get("__exit__")
+                if en is None or ex is None or len(ex.args.args) != 4 or len(en.args.args) != 1:
+                    continue
+                exc_params = {a.arg for a in ex.args.args[1:]}
+                if any(isinstance(n, ast.Name) and n.id in exc_params for n in ast.walk(ex)):
+                    continue
+                if any(not (r.value is None or (isinstance(r.value, ast.Constant) and not r.value.value)) for r in _returns_in(ex)):
+                    continue
+                if it.optional_vars is not None:
+                    sp = en.args.args[0].arg
+                    rets = _returns_in(en)
+                    if not isinstance(it.optional_vars, ast.Name) or len(rets) != 1 or rets[0] is not en.body[-1] or not (isinstance(rets[0].value, ast.Name) and rets[0].value.id == sp):
+                        continue
+                    v = it.optional_vars.id
+                else:
+                    self.counter += 1
+                    v = "_cm%d" % self.counter
+
+                def call(meth, args):
+                    c = ast.Call(func=ast.Attribute(value=ast.Name(id=v, ctx=ast.Load()), attr=meth, ctx=ast.Load()), args=args, keywords=[])
+                    return ast.Expr(value=c)
+                new = [ast.Assign(targets=[ast.Name(id=v, ctx=ast.Store())], value=ce), call("__enter__", []),
+                       ast.Try(body=s.body, handlers=[], orelse=[], finalbody=[call("__exit__", [ast.Constant(value=None) for _ in range(3)])])]
+                new = [ast.fix_missing_locations(ast.copy_location(x, s)) for x in new]
+                lst[i - 1:i] = new
+                i += 2
+                changed = True
+                self.stats.setdefault("with", []).append(mn + "." + cd.name)
+        return changed
+
+    def _dissolve_locals(self, fn, fq, mn, cls):
+        """v = C(args)  (C a new class; v named once and used only as v.field / v.method(...)):
+        the constructor and the methods are unfolded at their call sites and the fields become local variables"""
+        done = False
+        for _attempt in range(4):
+            cand = None
+            for n in _walk_same_function(fn):
+                if isinstance(n, ast.Assign) and len(n.targets) == 1 and isinstance(n.targets[0], ast.Name) and isinstance(n.value, ast.Call) and isinstance(n.value.func, ast.Name) and n is not fn:
+                    nc = self._new_class(mn, n.value.func.id)
+                    if nc is None or (mn, fq, n.targets[0].id) in self._tried:
+                        continue
+                    cand = (n, nc)
+                    break
+            if cand is None:
+                break
+            asg, (cd, methods) = cand
+            v = asg.targets[0].id
+            self._tried.add((mn, fq, v))
+            names = [n for n in ast.walk(fn) if isinstance(n, ast.Name) and n.id == v]
+            attrs = [a for a in ast.walk(fn) if isinstance(a, ast.Attribute) and isinstance(a.value, ast.Name) and a.value.id == v]
+            same = [n for n in _walk_same_function(fn) if isinstance(n, ast.Name) and n.id == v]
+            if len(same) != len(names) or sum(1 for n in names if isinstance(n.ctx, (ast.Store, ast.Del))) != 1 or len(attrs) != len(names) - 1:
+                continue
+            if any(isinstance(a, ast.arg) and a.arg == v for a in ast.walk(fn)):
+                continue
+            callee = {id(c.func) for c in ast.walk(fn) if isinstance(c, ast.Call)}
+            if any(a.attr in methods and id(a) not in callee for a in attrs):
+                continue  # a bound method handed on as a value
+            if any(a.attr.startswith("__") and a.attr not in methods for a in attrs):
+                continue
+            trial = copy.deepcopy(fn)
+            t_asg = next(n for n in _walk_same_function(trial) if isinstance(n, ast.Assign) and len(n.targets) == 1 and isinstance(n.targets[0], ast.Name) and n.targets[0].id == v)
+            if "__init__" in methods:
+                init = ast.Expr(value=ast.Call(func=ast.Attribute(value=ast.Name(id=v, ctx=ast.Load()), attr="__init__", ctx=ast.Load()), args=t_asg.value.args, keywords=t_asg.value.keywords))
+            else:
+                if t_asg.value.args or t_asg.value.keywords:
+                    continue
+                init = ast.Pass()
+            init = ast.fix_missing_locations(ast.copy_location(init, t_asg))
+            for lst in _stmt_lists(trial):
+                if t_asg in lst:
+                    lst[lst.index(t_asg)] = init
+            # named methods become local functions over the fields (small ones are unfolded later like any local helper);
+            # construction and the with-protocol are unfolded here
+            named = {}
+            todo = [a.attr for a in attrs if a.attr in methods and not a.attr.startswith("__")]
+            while todo:
+                m_ = todo.pop()
+                if m_ in named:
+                    continue
+                named[m_] = methods[m_]
+                sp_ = methods[m_].args.args[0].arg
+                todo += [a.attr for a in ast.walk(methods[m_]) if isinstance(a, ast.Attribute) and isinstance(a.value, ast.Name) and a.value.id == sp_ and a.attr in methods]
+            if any(n_.startswith("__") for n_ in named):
+                continue
+            taken0 = {n.id for n in ast.walk(trial) if isinstance(n, ast.Name)} | {a.arg for a in ast.walk(trial) if isinstance(a, ast.arg)} | {f.name for f in ast.walk(trial) if isinstance(f, ast.FunctionDef)}
+            if any(n_ in taken0 for n_ in named):
+                continue
+            all_attrs = {a.attr for a in attrs} | {a.attr for m_ in list(named.values()) + [methods[k] for k in ("__init__", "__enter__", "__exit__") if k in methods]
+                                                     for a in ast.walk(m_) if isinstance(a, ast.Attribute) and isinstance(a.value, ast.Name) and a.value.id == m_.args.args[0].arg}
+            fieldnames = {}
+            for f_ in sorted(all_attrs - set(methods)):
+                nm = v + "__" + f_.lstrip("_")
+                while nm in taken0 or nm in fieldnames.values():
+                    nm += "_"
+                fieldnames[f_] = nm
+            defs = []
+            for n_, m_ in named.items():
+                sp_ = m_.args.args[0].arg
+                body_ = copy.deepcopy(m_.body)
+
+                class G(ast.NodeTransformer):
+                    def visit_Attribute(self_, node):
+                        if isinstance(node.value, ast.Name) and node.value.id == sp_:
+                            if node.attr in named:
+                                return ast.copy_location(ast.Name(id=node.attr, ctx=ast.Load()), node)
+                            return ast.copy_location(ast.Name(id=fieldnames[node.attr], ctx=node.ctx), node)
+                        return self_.generic_visit(node)
+                body_ = [G().visit(b_) for b_ in body_]
+                st_ = sorted({x.id for b_ in body_ for x in ast.walk(b_) if isinstance(x, ast.Name) and isinstance(x.ctx, (ast.Store, ast.Del)) and x.id in fieldnames.values()})
+                if st_:
+                    body_.insert(0, ast.Nonlocal(names=st_))
+                args_ = copy.deepcopy(m_.args)
+                args_.args = args_.args[1:]
+                fd_ = ast.FunctionDef(name=n_, args=args_, body=body_, decorator_list=[], returns=None, type_comment=None, type_params=[])
+                defs.append(ast.fix_missing_locations(ast.copy_location(fd_, m_)))
+            if defs:
+                for lst in _stmt_lists(trial):
+                    if init in lst:
+                        k_ = lst.index(init)
+                        lst[k_ + 1:k_ + 1] = defs
+                for c_ in ast.walk(trial):
+                    if isinstance(c_, ast.Call) and isinstance(c_.func, ast.Attribute) and isinstance(c_.func.value, ast.Name) and c_.func.value.id == v and c_.func.attr in named:
+                        c_.func = ast.copy_location(ast.Name(id=c_.func.attr, ctx=ast.Load()), c_.func)
+            self._objs = {v: mn + "." + cd.name}
+            before = len(self.stats["sites"])
+            try:
+                for _round in range(6):
+                    if not self._expand(trial, fq, mn, cls):
+                        break
+            finally:
+                self._objs = {}
+            left = [a for a in ast.walk(trial) if isinstance(a, ast.Attribute) and isinstance(a.value, ast.Name) and a.value.id == v]
+            bare = [n for n in ast.walk(trial) if isinstance(n, ast.Name) and n.id == v]
+            if any(a.attr in methods for a in left) or len(bare) != len(left):
+                del self.stats["sites"][before:]
+                continue
+            fields = fieldnames
+            if any(a.attr not in fields for a in left):
+                del self.stats["sites"][before:]
+                continue
+
+            class F(ast.NodeTransformer):
+                def visit_Attribute(self_, node):
+                    if isinstance(node.value, ast.Name) and node.value.id == v:
+                        return ast.copy_location(ast.Name(id=fields[node.attr], ctx=node.ctx), node)
+                    return self_.generic_visit(node)
+            F().visit(trial)
+            fn.body = trial.body
+            self.stats.setdefault("dissolved", []).append("%s: %s = %s()" % (fq, v, cd.name))
+            done = True
+        return done
+
+    def _closure_convert(self, fn, fq, mn):
+        """C(args) handed on as a value, C a new class of __init__ (field = argument / constant) and __call__:
+        a callable object with state is a closure, so it is written as one:
+            <field> = <value> ...; def _C_call(...): nonlocal <fields stored>; <body of __call__ over the fields>"""
+        changed = False
+        for lst in list(_stmt_lists(fn)):
+            i = 0
+            while i < len(lst):
+                s = lst[i]
+                i += 1
+                if not isinstance(s, (ast.Expr, ast.Assign, ast.Return)):
+                    continue
+                for call in [n for n in _walk_no_scopes(s) if isinstance(n, ast.Call) and isinstance(n.func, ast.Name)]:
+                    nc = self._new_class(mn, call.func.id)
+                    if nc is None:
+                        continue
+                    cd, methods = nc
+                    if set(methods) - {"__init__", "__call__"} or "__call__" not in methods:
+                        continue
+                    # not inside a loop of fn: every evaluation would need variables of its own
+                    if _in_loop(fn, s):
+                        continue
+                    init, cl = methods.get("__init__"), methods["__call__"]
+                    fieldmap, pre, ok = {}, [], True
+                    taken = {n.id for n in ast.walk(fn) if isinstance(n, ast.Name)} | {a.arg for a in ast.walk(fn) if isinstance(a, ast.arg)} | {a.arg for a in ast.walk(cl) if isinstance(a, ast.arg)} | {n.id for n in ast.walk(cl) if isinstance(n, ast.Name)}
+                    csp = cl.args.args[0].arg
+                    stored = {a.attr for a in ast.walk(cl) if isinstance(a, ast.Attribute) and isinstance(a.value, ast.Name) and a.value.id == csp and isinstance(a.ctx, (ast.Store, ast.Del))}
+                    fn_stores = {}
+                    for n in ast.walk(fn):
+                        if isinstance(n, ast.Name) and isinstance(n.ctx, (ast.Store, ast.Del)):
+                            fn_stores[n.id] = fn_stores.get(n.id, 0) + 1
+                    fparams = {a.arg for a in fn.args.posonlyargs + fn.args.args + fn.args.kwonlyargs}
+                    if init is not None:
+                        fake = ast.Call(func=ast.Attribute(value=ast.Name(id="\0self", ctx=ast.Load()), attr="__init__", ctx=ast.Load()), args=call.args, keywords=call.keywords)
+                        q = mn + "." + cd.name + ".__init__"
+                        if q not in self.index:
+                            ok = False
+                        else:
+                            body, exprmap, pre0, ok = self._bind(fake, init, fake.func.value, q)
+                        if ok and pre0:
+                            ok = False
+                        if ok:
+                            for st in body:
+                                if isinstance(st, ast.Pass) or (isinstance(st, ast.Expr) and isinstance(st.value, ast.Constant)):
+                                    continue
+                                if not (isinstance(st, ast.Assign) and len(st.targets) == 1 and isinstance(st.targets[0], ast.Attribute) and isinstance(st.targets[0].value, ast.Name) and st.targets[0].value.id == "\0self"):
+                                    ok = False
+                                    break
+                                val = st.value
+                                empty_display = (isinstance(val, ast.List) and not val.elts) or (isinstance(val, ast.Dict) and not val.keys)
+                                if not (_pure(val) and not _reads_heap(val)) and not empty_display:
+                                    ok = False
+                                    break
+                                f = st.targets[0].attr
+                                if f in fieldmap:
+                                    ok = False
+                                    break
+                                if isinstance(val, ast.Name) and f not in stored and (val.id in fparams and fn_stores.get(val.id, 0) == 0):
+                                    fieldmap[f] = val.id  # the closure reads the enclosing function's own parameter
+                                    continue
+                                nm = f.lstrip("_") or f
+                                while nm in taken:
+                                    nm += "_"
+                                taken.add(nm)
+                                fieldmap[f] = nm
+                                pre.append(ast.fix_missing_locations(ast.copy_location(ast.Assign(targets=[ast.Name(id=nm, ctx=ast.Store())], value=val), s)))
+                    elif call.args or call.keywords:
+                        ok = False
+                    if not ok:
+                        continue
+                    used = {a.attr for a in ast.walk(cl) if isinstance(a, ast.Attribute) and isinstance(a.value, ast.Name) and a.value.id == csp}
+                    if used - set(fieldmap):
+                        continue
+                    body = copy.deepcopy(cl.body)
+
+                    class F(ast.NodeTransformer):
+                        def visit_Attribute(self_, node):
+                            if isinstance(node.value, ast.Name) and node.value.id == csp:
+                                return ast.copy_location(ast.Name(id=fieldmap[node.attr], ctx=node.ctx), node)
+                            return self_.generic_visit(node)
+                    body = [F().visit(b) for b in body]
+                    nl = sorted(fieldmap[f] for f in stored)
+                    if nl:
+                        body.insert(0, ast.Nonlocal(names=nl))
+                    args = copy.deepcopy(cl.args)
+                    args.args = args.args[1:]
+                    fname = "_%s_call" % cd.name.strip("_")
+                    while fname in taken:
+                        fname += "_"
+                    fdef = ast.FunctionDef(name=fname, args=args, body=body, decorator_list=[], returns=None, type_comment=None, type_params=[])
+                    fdef = ast.fix_missing_locations(ast.copy_location(fdef, cl))
+                    _replace_node(s, call, ast.copy_location(ast.Name(id=fname, ctx=ast.Load()), call))
+                    lst[i - 1:i - 1] = pre + [fdef]
+                    i += len(pre) + 1
+                    changed = True
+                    self.stats.setdefault("closures", []).append("%s: %s.%s" % (fq, mn, cd.name))
+                    break
+        return changed
+
+    def _drop_unused_classes(self):
+        for mn, tree in self.trees.items():
+            for cd in [s for s in tree.body if isinstance(s, ast.ClassDef)]:
+                if self._new_class(mn, cd.name) is None:
+                    continue
+                if not any(mn + "." + cd.name in s for k in ("with", "dissolved", "closures") for s in self.stats.get(k, [])) and not any(("%s()" % cd.name) in s for s in self.stats.get("dissolved", [])):
+                    continue
+                refs = sum(1 for t in self.trees.values() for n in ast.walk(t) if (isinstance(n, ast.Name) and n.id == cd.name) or (isinstance(n, ast.Attribute) and n.attr == cd.name))
+                if refs == 0:
+                    tree.body.remove(cd)
+                    self.stats.setdefault("dropped", []).append(mn + "." + cd.name)
 
     def _local_helper(self, q):
         """a small function defined inside another function that is only ever called there (never passed on or returned):
@@ -526,7 +882,7 @@ class Inliner:
             return None
         if fn.args.vararg or fn.args.kwarg:
             return None
-        if _has(fn, (ast.Global, ast.Nonlocal)):
+        if _has(fn, (ast.Global,)) or (_has(fn, (ast.Nonlocal,)) and not (self._local_helper(q) and any(isinstance(s, ast.Nonlocal) for s in fn.body) and sum(1 for s in ast.walk(fn) if isinstance(s, ast.Nonlocal)) == 1)):
             return None
         if sum(1 for _ in ast.walk(fn)) > 1500:
             return None
@@ -547,6 +903,9 @@ class Inliner:
             q = modname + "." + f.id
             return (q, None) if q in self.index else (None, None)
         if isinstance(f, ast.Attribute) and isinstance(f.value, ast.Name):
+            if f.value.id in self._objs:
+                q = self._objs[f.value.id] + "." + f.attr
+                return (q, f.value) if q in self.index else (None, None)
             if f.value.id in ("self", "cls") and cls is not None:
                 q = modname + "." + cls.name + "." + f.attr
                 if q in self.index:
@@ -589,6 +948,16 @@ class Inliner:
 
     def run(self):
         self._as_lambdas()
+        self._tried = set()
+        any_obj = False
+        for mn, tree in self.trees.items():
+            for q, fn, cls, func in qualnames(tree, mn):
+                if self._desugar_with(fn, mn):
+                    any_obj = True
+                if self._dissolve_locals(fn, q, mn, cls):
+                    any_obj = True
+        if any_obj:
+            self._reindex()
         for mn, tree in self.trees.items():
             for q, fn, cls, func in qualnames(tree, mn):
                 for _round in range(4):
@@ -615,10 +984,19 @@ class Inliner:
                     if not owner.body:
                         owner.body.append(ast.Pass())
                     self.stats.setdefault("dropped", []).append(q)
+        conv = False
+        for mn, tree in self.trees.items():
+            for q, fn, cls, func in qualnames(tree, mn):
+                if cls is None and self._closure_convert(fn, q, mn):
+                    conv = True
+        if conv:
+            self._reindex()
+        self._drop_unused_classes()
         return self.stats
 
     # -- one round over one function -------------------------------------
     def _expand(self, fn, fq, mn, cls):
+        self._cur = fq
         chain = []
         parts = fq.split(".")
         for i in range(2, len(parts) + 1):
@@ -657,6 +1035,8 @@ class Inliner:
         e = self.helper(q)
         if e is None:
             return None
+        if _has(e[0], (ast.Nonlocal,)) and q.rsplit(".", 1)[0] != fq:
+            return None  # its nonlocal names are plain locals only in the function that defines it
         return q, recv, e
 
     def _expand_stmt(self, s, fq, mn, cls, chain):
@@ -772,14 +1152,19 @@ class Inliner:
                     return None, None, None, False
                 bound[p] = dflt[p]
         body = copy.deepcopy(hfn.body)
+        outer_names = {x for st in body if isinstance(st, ast.Nonlocal) for x in st.names}
+        body = [st for st in body if not isinstance(st, ast.Nonlocal)] or [ast.Pass()]
         assigned = set()
         for st in body:
             assigned |= {n.id for n in _walk_same_function(st) if isinstance(n, ast.Name) and isinstance(n.ctx, (ast.Store, ast.Del))}
             assigned |= {n.name for n in _walk_same_function(st) if isinstance(n, ast.ExceptHandler) and n.name}
             if isinstance(st, (ast.FunctionDef, ast.ClassDef)):
                 assigned.add(st.name)
-        sfx = "__" + hfn.name.strip("_")
-        names = {n: n + sfx for n in assigned if n not in bound}
+        # every unfolding has names of its own (the first one the plain suffix): a temporary is then assigned once and N6 can see through it
+        k_ = self._instances.get((self._cur, hfn.name), 0) + 1
+        self._instances[(self._cur, hfn.name)] = k_
+        sfx = "__" + hfn.name.strip("_") + ("" if k_ == 1 else "_%d" % k_)
+        names = {n: n + sfx for n in assigned if n not in bound and n not in outer_names}
         exprmap, pre = {}, []
         for p, x in bound.items():
             if _simple_arg(x) and p not in assigned:
@@ -891,6 +1276,29 @@ def _search_loop_impl(body, kind, target, stmt):
     return body[:i] + [init, loop]
 
 
+def _in_loop(fn, stmt):
+    def find(stmts, depth):
+        for s in stmts:
+            if s is stmt:
+                return depth
+            if isinstance(s, (ast.FunctionDef, ast.AsyncFunctionDef, ast.ClassDef)):
+                continue
+            for f in ("body", "orelse", "finalbody"):
+                v = getattr(s, f, None)
+                if isinstance(v, list) and v and isinstance(v[0], ast.stmt):
+                    r = find(v, depth + (1 if isinstance(s, (ast.For, ast.While)) and f == "body" else 0))
+                    if r is not None:
+                        return r
+            if isinstance(s, ast.Try):
+                for h in s.handlers:
+                    r = find(h.body, depth)
+                    if r is not None:
+                        return r
+        return None
+    r = find(fn.body, 0)
+    return r is None or r > 0
+
+
 def _walk_no_scopes(node):
     todo = [node]
     while todo:
@@ -925,6 +1333,8 @@ def _pure(e):
         return False  # a new mutable object: the variable names its identity
     for n in ast.walk(e):
         if isinstance(n, ast.Call):
+            if _is_compile(n) and all(isinstance(a, ast.Constant) for a in n.args[:1]):
+                continue  # a compiled pattern is an immutable value
             if not (isinstance(n.func, ast.Name) and n.func.id in PURE_CALLS):
                 # method calls of string constants ("".join) and of names on immutable receivers are not assumed pure
                 if isinstance(n.func, ast.Attribute) and isinstance(n.func.value, ast.Constant) and n.func.attr in ("join", "format"):
@@ -936,7 +1346,17 @@ def _pure(e):
 
 
 def _reads_heap(e):
-    for n in ast.walk(e):
+    if _is_compile(e) and all(isinstance(a, ast.Constant) for a in e.args):
+        return False
+    todo = [e]
+    nodes = []
+    while todo:
+        n = todo.pop()
+        if n is not e and _is_compile(n) and all(isinstance(a, ast.Constant) for a in n.args):
+            continue
+        nodes.append(n)
+        todo.extend(ast.iter_child_nodes(n))
+    for n in nodes:
         if isinstance(n, ast.Subscript):
             return True
         if isinstance(n, ast.Call) and not (isinstance(n.func, ast.Attribute) and isinstance(n.func.value, ast.Constant)):
@@ -1007,7 +1427,15 @@ def explain_vars(fn):
                 rest = lst[i + 1:]
                 # an operand that is assigned again after the definition would change what the uses see
                 opnames = {x.id for x in ast.walk(s.value) if isinstance(x, ast.Name)}
-                if any(isinstance(x, ast.Name) and isinstance(x.ctx, (ast.Store, ast.Del)) and x.id in opnames for r in rest for x in ast.walk(r)):
+                # ... up to the last statement that uses v (what comes later no longer matters)
+                use_idx = [k for k, r in enumerate(rest) if any(_contains(r, u) for u in uses)]
+                upto = rest[: max(use_idx) + 1] if use_idx and len(use_idx) and all(any(_contains(r, u) for r in rest) for u in uses) else rest
+                if upto and upto is not rest and isinstance(upto[-1], (ast.Assign, ast.AugAssign, ast.Expr, ast.Return)):
+                    # a simple statement evaluates its value before it stores: its own targets come after the use
+                    check = upto[:-1]
+                else:
+                    check = rest
+                if any(isinstance(x, ast.Name) and isinstance(x.ctx, (ast.Store, ast.Del)) and x.id in opnames for r in check for x in ast.walk(r)):
                     continue
                 if any(isinstance(x, (ast.FunctionDef, ast.ClassDef, ast.AsyncFunctionDef)) and x.name in opnames for r in rest for x in ast.walk(r)):
                     continue
@@ -1046,6 +1474,30 @@ def explain_vars(fn):
             if changed:
                 break
     return fn
+
+
+def _in_loop_list(fn, lst):
+    """is this statement list (part of) a loop body of fn"""
+    def find(stmts, depth):
+        if stmts is lst:
+            return depth
+        for s in stmts:
+            if isinstance(s, (ast.FunctionDef, ast.AsyncFunctionDef, ast.ClassDef)):
+                continue
+            for f in ("body", "orelse", "finalbody"):
+                v = getattr(s, f, None)
+                if isinstance(v, list) and v and isinstance(v[0], ast.stmt):
+                    r = find(v, depth + (1 if isinstance(s, (ast.For, ast.While)) and f == "body" else 0))
+                    if r is not None:
+                        return r
+            if isinstance(s, ast.Try):
+                for h in s.handlers:
+                    r = find(h.body, depth)
+                    if r is not None:
+                        return r
+        return None
+    r = find(fn.body, 0)
+    return r is None or r > 0
 
 
 def _attr_chain(e):
@@ -1128,6 +1580,8 @@ def normalize_package(trees, known=None, passes=None):
         if on(6):
             for q, fn, cls, func in qualnames(t, mn):
                 explain_vars(fn)
+        if on(3):
+            _ReCanon().visit(t)
         if on(7):
             canon_flow(t)
         ast.fix_missing_locations(t)
@@ -1362,12 +1816,62 @@ def _single_use_test_temp(stmts, loads=None):
     return out
 
 
+def _kills(stmts, v):
+    """index-free test: walking the list, v is assigned (from something that does not read it) before any statement mentions it"""
+    for s in stmts:
+        mentions = any(isinstance(n, ast.Name) and n.id == v for n in ast.walk(s))
+        if not mentions:
+            continue
+        if isinstance(s, ast.Assign) and len(s.targets) == 1 and isinstance(s.targets[0], ast.Name) and s.targets[0].id == v and not any(isinstance(n, ast.Name) and n.id == v for n in ast.walk(s.value)):
+            return True
+        if isinstance(s, ast.Try) and s.finalbody and not any(isinstance(n, ast.Name) and n.id == v for part in (s.body, s.handlers, s.orelse) for b in part for n in ast.walk(b)):
+            return _kills(s.finalbody, v)
+        return False
+    return False
+
+
+def _dead_const_stores(stmts, fn_names):
+    """v = <constant> that is overwritten on every path before v is read, all reads of v coming after the overwriting statement"""
+    out = []
+    for i, s in enumerate(stmts):
+        if isinstance(s, ast.Assign) and len(s.targets) == 1 and isinstance(s.targets[0], ast.Name) and isinstance(s.value, ast.Constant) and fn_names is not None:
+            v = s.targets[0].id
+            rest = stmts[i + 1:]
+            inside = sum(1 for r in rest for n in ast.walk(r) if isinstance(n, ast.Name) and n.id == v)
+            if _kills(rest, v) and inside == fn_names.get(v, 0) - 1:
+                continue
+        out.append(s)
+    return out
+
+
+def _continue_guard(stmts):
+    """in a loop body:  if c: <A>; continue    <R>   ->   if c: <A>  else: <R>     (A not empty; `if c: continue` stays a guard);
+    a `continue` that ends the loop body is dropped"""
+    out = list(stmts)
+    if out and isinstance(out[-1], ast.Continue) and len(out) > 1:
+        out = out[:-1]
+    for i, s in enumerate(out):
+        if isinstance(s, ast.If) and not s.orelse and len(s.body) >= 2 and isinstance(s.body[-1], ast.Continue) and out[i + 1:] \
+                and not any(isinstance(n, (ast.Continue, ast.Break)) for b in s.body[:-1] for n in _walk_loop_body(b)):
+            new = ast.If(test=s.test, body=s.body[:-1], orelse=_continue_guard(out[i + 1:]))
+            return out[:i] + [ast.fix_missing_locations(ast.copy_location(new, s))]
+    if out and isinstance(out[-1], ast.If):
+        last = out[-1]
+        if last.body:
+            last.body = _continue_guard(last.body) or [ast.copy_location(ast.Pass(), last)]
+        if last.orelse:
+            last.orelse = _continue_guard(last.orelse)
+    return out
+
+
 def canon_flow_list(stmts, pattern=False, tail=True, loads=None):
     """guard-clause form: an `else` after a branch that always leaves the block is flattened; the leaving branch comes first;
     `if not c: A else: B` (neither leaving) becomes `if c: B else: A`; if/else assigning one target becomes a conditional expression"""
     out = []
     if not pattern:
         stmts = _single_use_test_temp(list(stmts), loads)
+        if loads is not None and "\0names" in loads:
+            stmts = _dead_const_stores(stmts, loads["\0names"])
     for s in stmts:
         if isinstance(s, (ast.If, ast.While)) and not pattern:
             s.test = _bool_simplify(s.test)
@@ -1376,6 +1880,8 @@ def canon_flow_list(stmts, pattern=False, tail=True, loads=None):
             if isinstance(v, list) and v and isinstance(v[0], ast.stmt) and not isinstance(s, (ast.FunctionDef, ast.AsyncFunctionDef, ast.ClassDef)):
                 is_tail = tail and s is stmts[-1] and isinstance(s, ast.If)
                 setattr(s, f, canon_flow_list(v, pattern, tail=is_tail, loads=loads))
+                if isinstance(s, (ast.For, ast.While)) and f == "body" and not pattern:
+                    s.body = _continue_guard(s.body)
         # if A or B: <leave>  ->  if A: <leave>  if B: <leave>
         if isinstance(s, ast.If) and not s.orelse and not pattern and isinstance(s.test, ast.BoolOp) and isinstance(s.test.op, ast.Or) and _exits(s.body) and len(s.body) == 1 and isinstance(s.body[0], (ast.Continue, ast.Break, ast.Return)) and (not isinstance(s.body[0], ast.Return) or isinstance(s.body[0].value, (ast.Constant, type(None)))):
             for v in s.test.values:
@@ -1478,7 +1984,13 @@ class _Compare(ast.NodeTransformer):
 
     def visit_IfExp(self, node):
         self.generic_visit(node)
+        if isinstance(node.test, ast.UnaryOp) and isinstance(node.test.op, ast.Not):
+            # a if not c else b  ->  b if c else a
+            node = ast.copy_location(ast.IfExp(test=node.test.operand, body=node.orelse, orelse=node.body), node)
         a, b = node.body, node.orelse
+        if isinstance(a, ast.Constant) and a.value is True and isinstance(b, ast.Constant) and b.value is False:
+            # True if c else False  ->  bool(c)
+            return ast.fix_missing_locations(ast.copy_location(ast.Call(func=ast.Name(id="bool", ctx=ast.Load()), args=[node.test], keywords=[]), node))
         if isinstance(a, (ast.List, ast.Tuple)) and type(a) is type(b) and len(a.elts) == 1 and len(b.elts) == 1:
             inner = ast.IfExp(test=node.test, body=a.elts[0], orelse=b.elts[0])
             new = type(a)(elts=[inner], ctx=ast.Load())
@@ -1515,6 +2027,14 @@ def canon_flow(tree, pattern=False):
             for x in ast.walk(n):
                 if isinstance(x, ast.Name) and isinstance(x.ctx, ast.Load):
                     loads[x.id] = loads.get(x.id, 0) + 1
+            names = {}
+            for x in ast.walk(n):
+                if isinstance(x, ast.Name):
+                    names[x.id] = names.get(x.id, 0) + 1
+                elif isinstance(x, (ast.Global, ast.Nonlocal)):
+                    for g in x.names:
+                        names[g] = names.get(g, 0) + 1000
+            loads["\0names"] = names
             n.body = canon_flow_list(n.body, pattern, loads=loads)
         elif isinstance(n, ast.ClassDef):
             n.body = canon_flow_list(n.body, pattern)
